@@ -263,9 +263,29 @@ func floatDivMod(a, b Float) (Float, Float, error) {
 	if b == 0 {
 		return 0, 0, floatDivisionByZero
 	}
-	q := Float(math.Floor(float64(a / b)))
-	r := a - q*b
-	return q, Float(r), nil
+	// As CPython's float_divmod: the remainder is computed exactly by
+	// fmod and takes the sign of b; the quotient is the integer nearest
+	// to (a - remainder) / b
+	mod := math.Mod(float64(a), float64(b))
+	div := (float64(a) - mod) / float64(b)
+	if mod != 0 {
+		if (b < 0) != (mod < 0) {
+			mod += float64(b)
+			div -= 1.0
+		}
+	} else {
+		mod = math.Copysign(0, float64(b))
+	}
+	var floordiv float64
+	if div != 0 {
+		floordiv = math.Floor(div)
+		if div-floordiv > 0.5 {
+			floordiv += 1.0
+		}
+	} else {
+		floordiv = math.Copysign(0, float64(a)/float64(b))
+	}
+	return Float(floordiv), Float(mod), nil
 }
 
 func (a Float) M__mod__(other Object) (Object, error) {
